@@ -31,9 +31,10 @@ Variable set : T -> N -> fatv -> res T.
 Variable val : T -> N -> fatv.
 Variable okc : N -> Prop.
 Variable okv : fatv -> Prop.
-Hypothesis get_val : forall t c, okc c -> get t c = Ok (val t c).
-Hypothesis set_ok : forall t c v, okc c -> okv v ->
-  exists t', set t c v = Ok t' /\ val t' c = v /\ forall c', c' <> c -> val t' c' = val t c'.
+Variable inv : T -> Prop.     (* store invariant kept by [set] (byte-level stores: slice geometry, bytes < 256) *)
+Hypothesis get_val : forall t c, inv t -> okc c -> get t c = Ok (val t c).
+Hypothesis set_ok : forall t c v, inv t -> okc c -> okv v ->
+  exists t', set t c v = Ok t' /\ inv t' /\ val t' c = v /\ forall c', c' <> c -> okc c' -> val t' c' = val t c'.
 Hypothesis okv_free : okv Free.
 Hypothesis okv_eoc : okv Eoc.
 Variable cs total : N.
@@ -42,7 +43,7 @@ Hypothesis Hokc : forall x, 2 <= x < total + 2 -> okc x.
 Hypothesis Hokd : forall n, 2 <= n < total + 2 -> okv (Data n).
 
 Let FileInv := FileInv T val cs total.
-Let WorldInv := WorldInv T val cs total.
+Let WorldInv := WorldInv T val inv cs total.
 Let content := content T.
 Let count_spec := count_spec T val.
 
@@ -55,18 +56,18 @@ Theorem C02_read_spec : forall w h sz l n,
     bs = firstn (N.to_nat k) (skipn (N.to_nat (h_off h)) (content w l sz)) /\
     k <= N.min n (sz - h_off h) /\ (0 < k \/ N.min n (sz - h_off h) = 0) /\
     h_off h' = h_off h + k /\ FileInv w h' sz l.
-Proof. exact (file_read_spec T get set val okc okv get_val set_ok cs total Hcs Hokc Hokd). Qed.
+Proof. exact (file_read_spec T get set val okc okv inv get_val set_ok cs total Hcs Hokc Hokd). Qed.
 
 (* seek: a negative target is rejected and nothing changes (the result carries no state); every other target,
    however far beyond the end, is clamped to the size; the invariant - in particular "current_cluster is the right
    element of the chain" - is re-established *)
 Theorem C02_seek_spec : forall w h sz l pos,
-  FileInv w h sz l ->
+  WorldInv w -> FileInv w h sz l ->
   let tg := seek_target sz (h_off h) pos in
   if (tg <? 0)%Z then file_seek T get cs w h pos = Err EInvalidInput
   else exists h', file_seek T get cs w h pos = Ok (w, h', N.min (Z.to_N tg) sz) /\
          h_off h' = N.min (Z.to_N tg) sz /\ FileInv w h' sz l.
-Proof. exact (file_seek_spec T get set val okc okv get_val set_ok cs total Hcs Hokc Hokd). Qed.
+Proof. exact (file_seek_spec T get set val okc okv inv get_val set_ok cs total Hcs Hokc Hokd). Qed.
 
 (* truncate: the content is cut at the cursor, the clusters beyond the cut are free again and the number of free
    clusters grows by exactly their number, no entry outside the file's chain and no data byte changes *)
@@ -78,10 +79,10 @@ Theorem C02_truncate_spec : forall w h sz l,
     FileInv w' h' (h_off h) (firstn keep l) /\ WorldInv w' /\
     content w' (firstn keep l) (h_off h) = firstn (N.to_nat (h_off h)) (content w l sz) /\
     (forall x, In x (skipn keep l) -> val (w_fat T w') x = Free) /\
-    (forall x, ~ In x l -> val (w_fat T w') x = val (w_fat T w) x) /\
+    (forall x, ~ In x l -> okc x -> val (w_fat T w') x = val (w_fat T w) x) /\
     count_spec (w_fat T w') 2 (N.to_nat total)
     = count_spec (w_fat T w) 2 (N.to_nat total) + N.of_nat (length (skipn keep l)).
-Proof. exact (file_truncate_spec T get set val okc okv get_val set_ok okv_free okv_eoc cs total Hcs Hokc Hokd). Qed.
+Proof. exact (file_truncate_spec T get set val okc okv inv get_val set_ok okv_free okv_eoc cs total Hcs Hokc Hokd). Qed.
 
 (* write: never a panic; 0 < k <= n unless the buffer is empty or the cursor is at the largest file size;
    the content is overwritten / extended at the cursor by the first k bytes; the chain stays or grows by ONE cluster
@@ -98,14 +99,14 @@ Theorem C02_write_spec : forall w h sz l buf,
         FileInv w' h' (N.max sz (h_off h + k)) l' /\ WorldInv w' /\
         content w' l' (N.max sz (h_off h + k))
         = write_at (content w l sz) (N.to_nat (h_off h)) (firstn (N.to_nat k) buf) /\
-        (forall x, ~ In x l' -> val (w_fat T w') x = val (w_fat T w) x) /\
+        (forall x, ~ In x l' -> okc x -> val (w_fat T w') x = val (w_fat T w) x) /\
         (forall x, ~ In x l' -> w_data T w' x = w_data T w x)
   | Err e => e = ENotEnoughSpace /\ (forall x, 2 <= x < total + 2 -> val (w_fat T w) x <> Free) /\
              h_off h = sz /\ sz mod cs = 0
   | Panic => False
   | OutOfFuel => False
   end.
-Proof. exact (file_write_spec T get set val okc okv get_val set_ok okv_eoc cs total Hcs Hokc Hokd). Qed.
+Proof. exact (file_write_spec T get set val okc okv inv get_val set_ok okv_eoc cs total Hcs Hokc Hokd). Qed.
 
 (* extents: the clusters of the chain in order, sizes <= cs summing to the file size, and the bytes found at those
    extents are the content *)
@@ -113,7 +114,7 @@ Theorem C02_extents_spec : forall w h sz l,
   WorldInv w -> FileInv w h sz l ->
   exists ex, file_extents T get cs total w h = Ok ex /\ map fst ex = l /\ ext_total ex = sz /\
              ext_bytes (w_data T w) ex = content w l sz /\ forall e, In e ex -> 0 <= snd e <= cs.
-Proof. exact (file_extents_spec T get set val okc okv get_val set_ok cs total Hcs Hokc Hokd). Qed.
+Proof. exact (file_extents_spec T get set val okc okv inv get_val set_ok cs total Hcs Hokc Hokd). Qed.
 
 (* one operation of any kind: accepted by the byte-array machine, invariants kept, and every other open file
    (disjoint chain) keeps its invariant, its content, and stays disjoint *)
@@ -124,7 +125,7 @@ Theorem C02_step_refines : forall w h sz l op,
     bf_step (content w l sz, h_off h) op r = Some (content w' l' sz', h_off h') /\
     (forall h2 sz2 l2, FileInv w h2 sz2 l2 -> disjoint l l2 ->
        FileInv w' h2 sz2 l2 /\ content w' l2 sz2 = content w l2 sz2 /\ disjoint l' l2).
-Proof. exact (file_step_refines T get set val okc okv get_val set_ok okv_free okv_eoc cs total Hcs Hokc Hokd). Qed.
+Proof. exact (file_step_refines T get set val okc okv inv get_val set_ok okv_free okv_eoc cs total Hcs Hokc Hokd). Qed.
 
 (* any history on a new empty file: the model's outcomes are exactly a run of the byte-array machine from
    (empty, 0), and the final abstract state is the final content and position *)
@@ -132,7 +133,7 @@ Theorem C02_run_refines : forall ops w,
   WorldInv w ->
   exists w' h' rs sz' l', file_run T get set cs total w empty_file ops = (w', h', rs) /\
     WorldInv w' /\ FileInv w' h' sz' l' /\ bf_run ([], 0) ops rs = Some (content w' l' sz', h_off h').
-Proof. exact (file_run_from_empty T get set val okc okv get_val set_ok okv_free okv_eoc cs total Hcs Hokc Hokd). Qed.
+Proof. exact (file_run_from_empty T get set val okc okv inv get_val set_ok okv_free okv_eoc cs total Hcs Hokc Hokd). Qed.
 
 (* the same from any file in any state *)
 Theorem C02_run_refines_from : forall ops w h sz l,
@@ -140,7 +141,7 @@ Theorem C02_run_refines_from : forall ops w h sz l,
   exists w' h' rs sz' l', file_run T get set cs total w h ops = (w', h', rs) /\
     WorldInv w' /\ FileInv w' h' sz' l' /\
     bf_run (content w l sz, h_off h) ops rs = Some (content w' l' sz', h_off h').
-Proof. exact (file_run_refines T get set val okc okv get_val set_ok okv_free okv_eoc cs total Hcs Hokc Hokd). Qed.
+Proof. exact (file_run_refines T get set val okc okv inv get_val set_ok okv_free okv_eoc cs total Hcs Hokc Hokd). Qed.
 
 (* several different files open and modified in interleaved order: [hs] are the open handles, [gs] their (size, chain)
    pairs, [MultiInv] = every handle satisfies FileInv and the chains are pairwise disjoint, [views] = the list of
@@ -151,7 +152,7 @@ Theorem C02_interleaved_refines : forall ops w hs gs,
   exists w' hs' rs gs', multi_run T get set cs total w hs ops = (w', hs', rs) /\
     WorldInv w' /\ MultiInv T val cs total w' hs' gs' /\
     bf_multi (views T w hs gs) ops rs = Some (views T w' hs' gs').
-Proof. exact (multi_run_refines T get set val okc okv get_val set_ok okv_free okv_eoc cs total Hcs Hokc Hokd). Qed.
+Proof. exact (multi_run_refines T get set val okc okv inv get_val set_ok okv_free okv_eoc cs total Hcs Hokc Hokd). Qed.
 End C02.
 
 (* ---- non-vacuity on the pure store: cluster size 4, 8 data clusters, all free ---- *)
@@ -159,9 +160,9 @@ Definition ex_world : fworld pfat :=
   {| w_fat := fun _ => Free; w_fi := {| fi_free := Some 8; fi_next := None; fi_dirty := false |};
      w_data := fun _ => [0; 0; 0; 0] |}.
 
-Example C02_example_world : WorldInv pfat (fun t c => t c) 4 8 ex_world /\ FileInv pfat (fun t c => t c) 4 8 ex_world empty_file 0 [].
+Example C02_example_world : WorldInv pfat (fun t c => t c) (fun _ => True) 4 8 ex_world /\ FileInv pfat (fun t c => t c) 4 8 ex_world empty_file 0 [].
 Proof.
-  split; [split; [split; [reflexivity|exact I]|reflexivity]|].
+  split; [split; [exact I|split; [split; [reflexivity|exact I]|reflexivity]]|].
   constructor; cbn; try reflexivity; try (intros _ []); try constructor.
   - eexists. repeat split.
   - discriminate.
@@ -178,10 +179,10 @@ Definition ex_handle2 : fhandle :=
      h_entry := Some {| ed_first := Some 5; ed_size := Some 6; ed_dirty := true |} |}.
 
 Example C02_example_inv :
-  WorldInv pfat (fun t c => t c) 4 8 ex_world2 /\ FileInv pfat (fun t c => t c) 4 8 ex_world2 ex_handle2 6 [5; 3] /\
+  WorldInv pfat (fun t c => t c) (fun _ => True) 4 8 ex_world2 /\ FileInv pfat (fun t c => t c) 4 8 ex_world2 ex_handle2 6 [5; 3] /\
   content pfat ex_world2 [5; 3] 6 = [1; 2; 3; 4; 5; 6].
 Proof.
-  split; [split; [split; [reflexivity|cbn; discriminate]|]|split; [|reflexivity]].
+  split; [split; [exact I|split; [split; [reflexivity|cbn; discriminate]|]]|split; [|reflexivity]].
   - intros c. cbn. destruct (c =? 5); [reflexivity|]. destruct (c =? 3); reflexivity.
   - constructor; cbn; try reflexivity.
     + eexists. repeat split.
